@@ -183,3 +183,164 @@ Theorem C07_no_doc_lines_refuted_proof : ~ C07_full no_doc_lines.
 Proof. apply (second_refutes no_doc_lines W.c1 None None W.d_top_comment); try reflexivity; try exact I. exact no_doc_lines_second_pass_fuses. Qed.
 Theorem C07_no_hash_refuted_proof : ~ C07_full no_hash.
 Proof. apply (reread_refutes no_hash W.c1e None None W.d_hash); try reflexivity; try exact I. exact no_hash_hash_line_lost. Qed.
+
+(* ---------------------------------------------------------------- the identity formatter *)
+Definition fmt_id (k v : str) : str := v.
+
+Lemma split_lf_go_noeol l : forall X acc, no_eol l = true -> split_lf_go (l ++ X) acc = split_lf_go X (acc ++ l).
+Proof.
+  induction l as [|c r IH]; intros X acc H; [rewrite app_nil_r; reflexivity|]. cbn [no_eol forallb] in H.
+  apply andb_true_iff in H. destruct H as [Hc Hr]. cbn [app split_lf_go].
+  assert (E : (c =? 10)%N = false).
+  { apply negb_true_iff in Hc. unfold is_newline in Hc. apply orb_false_iff in Hc. apply Hc. }
+  rewrite E, (IH X (acc ++ [c]) Hr), <- app_assoc. reflexivity.
+Qed.
+
+Lemma split_lf_lines conts : forall first, no_eol first = true -> forallb no_eol conts = true ->
+  split_lf (first ++ flat_map (fun t => LF :: t) conts) = first :: conts.
+Proof.
+  unfold split_lf. induction conts as [|t r IH]; intros first Hf Hc.
+  - cbn [flat_map]. rewrite (split_lf_go_noeol first [] [] Hf). reflexivity.
+  - cbn [forallb] in Hc. apply andb_true_iff in Hc. destruct Hc as [Ht Hr].
+    cbn [flat_map]. rewrite (split_lf_go_noeol first _ [] Hf). cbn [app split_lf_go]. change (LF =? 10)%N with true. cbv iota.
+    f_equal. apply (IH t Ht Hr).
+Qed.
+
+Lemma parse_value_of_text w first conts :
+  ws_ok w = true -> first_ok first = true -> forallb canon_cont conts = true ->
+  parse_value (value_text w first conts) = (w, first, conts).
+Proof.
+  intros Hw Hf Hc. unfold parse_value, value_text.
+  assert (Hnf : no_eol first = true) by (unfold first_ok in Hf; apply andb_true_iff in Hf; apply Hf).
+  assert (Hnc : forallb no_eol conts = true).
+  { clear - Hc. induction conts as [|t r IH]; [reflexivity|]. cbn [forallb] in *. apply andb_true_iff in Hc. destruct Hc as [H1 H2].
+    rewrite (IH H2), andb_true_r. apply (canon_cont_parts t H1). }
+  rewrite span_app_stop; [rewrite (split_lf_lines conts first Hnf Hnc); reflexivity|exact Hw|].
+  destruct first as [|x first'].
+  - destruct conts; [exact I|reflexivity].
+  - unfold first_ok in Hf. apply andb_true_iff in Hf. destruct Hf as [_ Hx]. apply negb_true_iff in Hx. exact Hx.
+Qed.
+
+Lemma a_ws_field_id c f m : wf_field f m = true ->
+  a_ws_field c (Some fmt_id) f = a_ws_field c None f /\ fmt_shaped_on (Some fmt_id) f = true.
+Proof.
+  intros Hwf. destruct (wf_field_parts f m Hwf) as (_ & Hw & Hf & Hc).
+  pose proof (parse_value_of_text (field_ws0 f) (f_first f) (map snd (f_cont f)) (ws_ok_field_ws0 f Hw) Hf Hc) as E.
+  unfold a_ws_field, fmt_shaped_on, shaped, fmt_id. rewrite E. split; [reflexivity|].
+  rewrite Hf, Hc. cbn [andb]. unfold field_ws0. destruct (f_first f); [|reflexivity]. destruct (f_cont f); reflexivity.
+Qed.
+
+Lemma a_ws_items_id c ecmp its more : wf_items its more = true ->
+  a_ws_items c ecmp (Some fmt_id) its = a_ws_items c ecmp None its /\ items_shaped (Some fmt_id) its.
+Proof.
+  intros Hwf. split.
+  - unfold a_ws_items. pose proof (group_items_In its []) as HIn. destruct (group_items its []) as [gs tr]. cbn [fst] in HIn.
+    f_equal. apply map_ext_in. intros g Hg. apply sort_opt_In in Hg.
+    destruct (wf_items_In its more (snd g) Hwf (HIn g Hg)) as [m Hm]. rewrite (proj1 (a_ws_field_id c (snd g) m Hm)). reflexivity.
+  - intros f Hf. destruct (wf_items_In its more f Hwf Hf) as [m Hm]. apply (a_ws_field_id c f m Hm).
+Qed.
+
+Lemma a_ws_doc_ext pcmp pf pf' l : (forall its, In (LPara its) l -> pf its = pf' its) -> a_ws_doc pcmp pf l = a_ws_doc pcmp pf' l.
+Proof.
+  intros H. unfold a_ws_doc. pose proof (group_blocks_In l []) as HIn. destruct (group_blocks l []) as [gs tr]. cbn [fst] in HIn.
+  f_equal. f_equal. f_equal. apply map_ext_in. intros g Hg. apply sort_opt_In in Hg. rewrite (H (snd g) (HIn g Hg)). reflexivity.
+Qed.
+
+(* with the identity formatter everything is as without a formatter, on every well-formed document *)
+Theorem a_std_id c pcmp ecmp l : lwf l = true ->
+  a_std c pcmp ecmp (Some fmt_id) l = a_std c pcmp ecmp None l /\ doc_shaped (Some fmt_id) l.
+Proof.
+  intros Hl. split.
+  - unfold a_std. apply a_ws_doc_ext. intros its Hi. destruct (lwf_para_wf l its Hl Hi) as [m Hm].
+    apply (a_ws_items_id c ecmp its m Hm).
+  - intros its f Hi Hf. destruct (lwf_para_wf l its Hl Hi) as [m Hm]. apply (proj2 (a_ws_items_id c ecmp its m Hm) f Hf).
+Qed.
+
+(* ---------------------------------------------------------------- with a formatter *)
+Lemma paras_of_lift_fields d its : In its (paras_of (lift d)) -> fields_of its <> [].
+Proof.
+  unfold paras_of, lift. intros H. apply in_flat_map in H. destruct H as (b & Hb & H).
+  apply in_map_iff in Hb. destruct Hb as (b0 & <- & _). destruct b0; try contradiction. destruct H as [<-|[]]. discriminate.
+Qed.
+
+Lemma spec_para_nonempty ecmp fmt its : fields_of its <> [] -> spec_para ecmp fmt its <> [].
+Proof.
+  intros H. unfold spec_para. pose proof (Permutation.Permutation_length (sort_opt_perm (option_map on_pair ecmp) (fields_of its))) as Hl.
+  destruct (sort_opt (option_map on_pair ecmp) (fields_of its)); [destruct (fields_of its); [congruence|discriminate]|discriminate].
+Qed.
+
+Theorem formatter_proof c psort pcmp esort ecmp g d :
+  ind_ok c = true -> pcmp_agrees psort pcmp -> ecmp_agrees esort ecmp -> wf_doc d = true ->
+  doc_shaped (Some g) (lift d) ->
+  let l1 := a_ws_doc pcmp (a_ws_items c ecmp (Some g)) (lift d) in
+  std_ws fixed c psort esort (Some (pure_fmt g)) (tree_of d) = Ok (ltree_of l1) /\
+  doc_items (ltree_of l1) = map (spec_para ecmp (Some g)) (sort_opt (option_map on_items pcmp) (paras_of (lift d))) /\
+  (exists t', from_str (text (ltree_of l1)) = Ok t' /\ doc_items t' = doc_items (ltree_of l1)) /\
+  doc_indented c l1 = true /\ single_blanks SepStart l1 = true.
+Proof.
+  intros Hind Hp He Hwf Hsh l1.
+  assert (Hl : lwf (lift d) = true) by (apply lwf_lift; exact Hwf).
+  pose proof (lwf_fields_ok (Some g) (lift d) Hl Hsh) as Hok.
+  assert (Hcontent : doc_items (ltree_of l1) = map (spec_para ecmp (Some g)) (sort_opt (option_map on_items pcmp) (paras_of (lift d)))).
+  { subst l1. rewrite doc_items_ltree_of, a_ws_doc_content. apply map_ext_in. intros its Hi.
+    apply a_ws_items_pairs. intros f Hf. apply (Hok its f); [|exact Hf].
+    apply sort_opt_In in Hi. unfold paras_of in Hi. apply in_flat_map in Hi. destruct Hi as (b & Hb & Hi).
+    destruct b; try contradiction. destruct Hi as [<-|[]]. exact Hb. }
+  split; [|split; [exact Hcontent|split; [|split]]].
+  - rewrite <- ltree_of_lift. apply (std_ws_commute c psort pcmp esort ecmp (Some g) Hind Hp He (lift d) Hok).
+  - destruct (a_ws_doc_reread pcmp (a_ws_items c ecmp (Some g)) (lift d) Hl (pf_keeps_wf_items c ecmp (Some g) (lift d) Hind Hsh)) as (t' & E1 & E2).
+    exists t'. split; [exact E1|]. rewrite E2. fold l1. rewrite <- doc_items_ltree_of, Hcontent.
+    unfold nonempty_paras. apply filter_all_id. apply forallb_forall. intros q Hq. apply in_map_iff in Hq. destruct Hq as (its & <- & Hi).
+    apply sort_opt_In in Hi. pose proof (spec_para_nonempty ecmp (Some g) its (paras_of_lift_fields d its Hi)) as Hn.
+    destruct (spec_para ecmp (Some g) its); [congruence|reflexivity].
+  - apply a_ws_doc_indented. intros its. apply a_ws_items_indented.
+  - apply a_ws_doc_single_blanks.
+Qed.
+
+Theorem formatter_idem_proof c psort pcmp esort ecmp g d :
+  ind_ok c = true -> pcmp_agrees psort pcmp -> ecmp_agrees esort ecmp -> wf_doc d = true ->
+  doc_shaped (Some g) (lift d) -> stable_on c (Some g) (lift d) ->
+  pair_cmp_consistent ecmp -> para_cmp_consistent pcmp ->
+  ecmp_invariant_on ecmp (Some g) (lift d) -> pcmp_invariant_on pcmp ecmp (Some g) (lift d) ->
+  let l1 := a_ws_doc pcmp (a_ws_items c ecmp (Some g)) (lift d) in
+  std_ws fixed c psort esort (Some (pure_fmt g)) (ltree_of l1) = Ok (ltree_of l1).
+Proof.
+  intros Hind Hp He Hwf Hsh Hst Hce Hcp Hie Hip l1.
+  assert (Hl : lwf (lift d) = true) by (apply lwf_lift; exact Hwf).
+  pose proof (lwf_fields_ok (Some g) (lift d) Hl Hsh) as Hok.
+  apply (std_ws_idem c psort pcmp esort ecmp (Some g) Hind Hp He (lift d) Hok Hst Hce Hcp Hie Hip).
+Qed.
+
+(* the identity formatter: as without a formatter, second application included *)
+Theorem identity_formatter_proof c psort pcmp esort ecmp d :
+  ind_ok c = true -> pcmp_agrees psort pcmp -> ecmp_agrees esort ecmp ->
+  pair_cmp_consistent ecmp -> para_cmp_consistent pcmp ->
+  (forall a b, match pcmp with Some p => p (sort_opt ecmp a) (sort_opt ecmp b) = p a b | None => True end) ->
+  wf_doc d = true ->
+  let l1 := a_ws_doc pcmp (a_ws_items c ecmp None) (lift d) in
+  std_ws fixed c psort esort (Some (pure_fmt fmt_id)) (tree_of d) = Ok (ltree_of l1) /\
+  std_ws fixed c psort esort (Some (pure_fmt fmt_id)) (ltree_of l1) = Ok (ltree_of l1).
+Proof.
+  intros Hind Hp He Hce Hcp Hpi Hwf l1.
+  assert (Hl : lwf (lift d) = true) by (apply lwf_lift; exact Hwf).
+  destruct (a_std_id c pcmp ecmp (lift d) Hl) as [Eid Hsh]. unfold a_std in Eid.
+  pose proof (lwf_fields_ok (Some fmt_id) (lift d) Hl Hsh) as Hok.
+  pose proof (lwf_fields_ok None (lift d) Hl (fun _ _ _ _ => eq_refl)) as Hok0.
+  change (Some (pure_fmt fmt_id)) with (option_map pure_fmt (Some fmt_id)).
+  split.
+  - rewrite <- ltree_of_lift. rewrite (std_ws_commute c psort pcmp esort ecmp (Some fmt_id) Hind Hp He (lift d) Hok).
+    unfold a_std. rewrite Eid. reflexivity.
+  - (* the fields of the result are well-formed, so the identity formatter is shaped on them too *)
+    assert (Hwf1 : forall x, In (LPara x) l1 -> exists m, wf_items x m = true).
+    { intros x Hx. apply In_a_ws_doc in Hx. destruct Hx as (its & Hi & ->). destruct (lwf_para_wf (lift d) its Hl Hi) as [m Hm].
+      exists true. apply (wf_terminate_last _ m). apply wf_a_ws_items; [exact Hind|exact Hm|intros f _; reflexivity]. }
+    assert (Hok1 : doc_fields_ok (Some fmt_id) l1).
+    { intros x f Hx Hf. destruct (Hwf1 x Hx) as [m Hm]. destruct (wf_items_In x m f Hm Hf) as [m' Hm'].
+      apply (wf_field_ok (Some fmt_id) f m' Hm'). apply (a_ws_field_id c f m' Hm'). }
+    rewrite (std_ws_commute c psort pcmp esort ecmp (Some fmt_id) Hind Hp He l1 Hok1). f_equal. f_equal.
+    unfold a_std. rewrite (a_ws_doc_ext pcmp (a_ws_items c ecmp (Some fmt_id)) (a_ws_items c ecmp None) l1).
+    + apply (a_std_idem c psort pcmp ecmp None Hp (lift d) Hok0 (stable_on_nofmt c (lift d) Hok0) Hce Hcp (ecmp_invariant_nofmt ecmp (lift d))).
+      intros a b _ _. specialize (Hpi (flat_map item_pairs a) (flat_map item_pairs b)). destruct pcmp as [p|]; [|exact I].
+      rewrite !spec_para_nofmt. exact Hpi.
+    + intros x Hx. destruct (Hwf1 x Hx) as [m Hm]. apply (a_ws_items_id c ecmp x m Hm).
+Qed.
